@@ -107,6 +107,21 @@ def build0(ux, d):
         if d.get("open_chunks"):
             return ux.open_grid(meshfiles() / d["path"], chunks={})
         return ux.open_grid(meshfiles() / d["path"])
+    if via == "face_vertices":
+        # faces given by their vertices' (lon, lat) in degrees; latlon=False hands the SAME kind of description over as
+        # Cartesian unit vectors; form = the public entry point
+        faces = [[(fl(p[0]), fl(p[1])) for p in f] for f in d["verts"]]
+        if d.get("latlon", True):
+            arr = np.array(faces, dtype=np.float64)
+        else:
+            lo, la = np.radians(np.array(faces)[..., 0]), np.radians(np.array(faces)[..., 1])
+            arr = np.stack([np.cos(la) * np.cos(lo), np.cos(la) * np.sin(lo), np.sin(la)], axis=-1)
+        form = d.get("form", "from_face_vertices")
+        if form == "open_grid_list":
+            return ux.open_grid(arr.tolist(), latlon=bool(d.get("latlon", True)))
+        if form == "open_grid_ndarray":
+            return ux.open_grid(arr, latlon=bool(d.get("latlon", True)))
+        return ux.Grid.from_face_vertices(arr, latlon=bool(d.get("latlon", True)))
     dt = np.dtype(d.get("dtype", "float64"))
     lon = np.array([fl(b) for b in d["lon"]], dtype=np.float64).astype(dt)
     lat = np.array([fl(b) for b in d["lat"]], dtype=np.float64).astype(dt)
@@ -305,18 +320,28 @@ def has_nan(o):
     return any(((b >> 52) & 0x7FF) == 0x7FF and (b & ((1 << 52) - 1)) for b in o["lon"] + o["lat"])
 
 
-def judge_objs(ctx, kind, a, oa, da, b, ob, db, extra=None):
+def compare4(a, b, fresh=None):
+    """`a == b`, `a != b`, `b == a`, `b != a`; with `fresh` (a pair of zero-argument builders) every comparison is made on
+    newly built grids, so that nothing — not even an earlier comparison — was read before"""
+    outs, errs = [], []
+    for op, swap in (("eq", False), ("ne", False), ("eq", True), ("ne", True)):
+        x, y = (fresh[0](), fresh[1]()) if fresh else (a, b)
+        if swap:
+            x, y = y, x
+        r, e = cmp(op, x, y)
+        outs.append(r)
+        if e:
+            errs.append(f"{op}: {e}")
+    return outs, errs
+
+
+def judge_objs(ctx, kind, a, oa, da, b, ob, db, extra=None, pre=None):
     """`a == b`, `a != b`, `b == a`, `b != a` on the real code, verdict by the Lean Spec"""
     d = ctx.driver
     inp = dict(mode="pair", kind=kind, a=da, b=db)
     if extra:
         inp.update(extra)
-    outs, errs = [], []
-    for op, x, y in (("eq", a, b), ("ne", a, b), ("eq", b, a), ("ne", b, a)):
-        r, e = cmp(op, x, y)
-        outs.append(r)
-        if e:
-            errs.append(f"{op}: {e}")
+    outs, errs = pre if pre is not None else compare4(a, b)
     ok_struct = oa["dims_ok"] and ob["dims_ok"] and oa["int_conn"] and ob["int_conn"]
     if errs:
         ctx.case((kind, da, db), sample=None)
@@ -617,11 +642,20 @@ def run_pair(ctx, ux, kind, da, db, touches=()):
     except Exception as e:  # constructor refuses the generated input: not judged here
         ctx.hit(f"constructor-raised:{kind}:{type(e).__name__}")
         return
+    pre = None
+    if da.get("fresh") or db.get("fresh"):
+        # compare BEFORE anything is observed, each comparison on newly built grids; the arrays are observed afterwards
+        try:
+            pre = compare4(None, None, fresh=(lambda: build(ux, da), lambda: build(ux, db)))
+        except Exception as e:  # noqa: BLE001
+            ctx.hit(f"constructor-raised:{kind}:{type(e).__name__}")
+            return
+        ctx.hit("compared-fresh")
     oa, ob = observe(a), observe(b)
     if touches:
         touch(ctx, a, touches)
         ctx.hit("touched-before-comparing")
-    judge_objs(ctx, kind, a, oa, da, b, ob, db, extra=dict(touch=list(touches)) if touches else None)
+    judge_objs(ctx, kind, a, oa, da, b, ob, db, extra=dict(touch=list(touches)) if touches else None, pre=pre)
     return a, oa, b, ob
 
 
@@ -919,6 +953,67 @@ def source_pairs(rng, thorough):
 
 
 # --------------------------------------------------------------------------------------
+# construction forms of one format: face-vertex grids given in lon/lat or as Cartesian vectors
+# --------------------------------------------------------------------------------------
+
+
+def face_vertex_pairs(rng, thorough):
+    """grids of format "Face Vertices" built with latlon=True (stores node_lon/node_lat) and latlon=False (stores node_x/y/z)
+    through from_face_vertices / open_grid(list) / open_grid(ndarray): different positions with identical connectivity (must be
+    unequal, both orders, compared fresh) and the same positions in the two forms (verdict by the observed arrays: unequal
+    unless the derived longitudes / latitudes are bit-identical); histories: nothing read / node_lon read / node_x read"""
+    out = []
+    FORMS = ["from_face_vertices", "open_grid_list", "open_grid_ndarray"]
+    HIST = [[], [], [["touch", ["node_lon"]]], [["touch", ["node_x"]]], [["touch", ["node_lat", "node_z"]]]]
+
+    def faces(nf, k):
+        """nf k-gons over distinct points whose order by longitude equals their order by x (lon in (-150, -30), |lat| < 5): the
+        two forms then number the nodes alike and the connectivity tables coincide"""
+        n = nf * k
+        lons = sorted(rng.uniform(-150, -30) for _ in range(n))
+        lons = [lons[0] + 0.0] + [max(lons[i], lons[i - 1] + 0.8) if False else lons[i] for i in range(1, n)]
+        for i in range(1, n):
+            if lons[i] - lons[i - 1] < 0.8:
+                lons[i] = lons[i - 1] + 0.8
+        pts = [(lo, rng.uniform(-5, 5)) for lo in lons]
+        order = list(range(n))
+        return pts, [order[i * k:(i + 1) * k] for i in range(nf)]
+
+    def d(pts, fs, latlon, ops=(), form=None):
+        return dict(via="face_vertices", verts=[[[bits(pts[v][0]), bits(pts[v][1])] for v in f] for f in fs], latlon=latlon,
+                    form=form or rng.choice(FORMS), ops=[list(o) for o in ops], fresh=True)
+
+    for rep in range(10 if thorough else 4):
+        nf, k = rng.choice([(1, 3), (1, 3), (1, 4), (2, 3), (3, 4)])
+        P, fs = faces(nf, k)
+        Q, _ = faces(nf, k)
+        perm = list(range(nf * k))
+        if rng.random() < 0.5:  # other corner order inside the faces (same on both sides)
+            fs = [f[1:] + f[:1] for f in fs]
+        # different positions, identical connectivity, the two storage forms, nothing read before ==
+        out.append(("face-vertices/other-positions/lonlat-vs-xyz/fresh", d(P, fs, True), d(Q, fs, False)))
+        out.append(("face-vertices/other-positions/xyz-vs-xyz/fresh", d(P, fs, False), d(Q, fs, False)))
+        out.append(("face-vertices/other-positions/lonlat-vs-lonlat/fresh", d(P, fs, True), d(Q, fs, True)))
+        # one vertex moved
+        i = rng.randrange(nf * k)
+        R = list(P); R[i] = (P[i][0] + 0.25, P[i][1])
+        out.append(("face-vertices/one-vertex-lon/lonlat-vs-xyz/fresh", d(P, fs, True), d(R, fs, False)))
+        R2 = list(P); R2[i] = (P[i][0], P[i][1] + 0.125)
+        out.append(("face-vertices/one-vertex-lat/xyz-vs-lonlat/fresh", d(P, fs, False), d(R2, fs, True)))
+        # histories on either side
+        out.append(("face-vertices/other-positions/lonlat-vs-xyz/history", d(P, fs, True, rng.choice(HIST)), d(Q, fs, False, rng.choice(HIST))))
+        # the SAME positions in the two forms / in the same form
+        out.append(("face-vertices/same-positions/lonlat-vs-xyz", d(P, fs, True), d(P, fs, False, rng.choice(HIST))))
+        out.append(("face-vertices/same-positions/xyz-vs-xyz", d(P, fs, False, rng.choice(HIST)), d(P, fs, False)))
+        out.append(("face-vertices/same-positions/lonlat-vs-lonlat", d(P, fs, True), d(P, fs, True, rng.choice(HIST))))
+        # unconstrained positions (node numbering may differ between the forms: the observed arrays decide)
+        U = [(rng.uniform(-179, 179), rng.uniform(-85, 85)) for _ in range(nf * k)]
+        V = [(rng.uniform(-179, 179), rng.uniform(-85, 85)) for _ in range(nf * k)]
+        out.append(("face-vertices/random-positions/lonlat-vs-xyz/fresh", d(U, fs, True), d(V, fs, False)))
+    return out
+
+
+# --------------------------------------------------------------------------------------
 # which variables of the source dataset are xarray coordinates — on EVERY dimension a compared variable has
 # --------------------------------------------------------------------------------------
 
@@ -1192,7 +1287,10 @@ def run(ctx):
                 "placements, float32 storage, coordinates stored as data variables / xarray coordinates, after derived attributes "
                 "were computed; all ordered pairs of a small family (every combination of differing fields); g==g, copies, "
                 "non-Grid operands; pairs that agree under a PROJECTION of the arrays (same flattened connectivity in another "
-                "(n_face, width) shape incl. trailing fills; pairs of SOURCE descriptions in every fill convention (fill = n_node, "
+                "(n_face, width) shape incl. trailing fills; face-vertex grids of one format built with latlon=True / latlon=False "
+                "(from_face_vertices, open_grid(list / ndarray)): other positions with identical connectivity, one vertex moved, the same "
+                "positions in both forms, compared FRESH (each comparison on newly built grids, arrays observed afterwards) and after "
+                "node_lon / node_x were read on either side; pairs of SOURCE descriptions in every fill convention (fill = n_node, "
                 "n_node+1 1-based, 999999, 2^31-1, INT_FILL, -1, 0 with start 1; from_topology and the UGRID reader) with 12 … 999999 cheap "
                 "nodes and faces on the highest indices: identical, highest index ↔ padding, index ± 1 near the sentinel — verdict on the "
                 "source element lists, stored tables compared with the Lean reader model; identical and one-entry-mutated pairs whose SOURCE DATASETS differ in which "
@@ -1210,6 +1308,8 @@ def run(ctx):
         "grids use the canonical dimension names (Variable.equals compares dims); how node_lon/node_lat are stored (data variables / "
         "xarray coordinates) is observed and sent to the driver but is not an input of the repaired model (eq_ignores_coord_storage)",
         "Python falls back to Grid.__eq__ for `x == g` when x is a builtin (reflected comparison)",
+        "the stored node-coordinate representation (lon/lat, x/y/z or both) and what was read before == are not inputs of the model "
+        "(eq_ignores_stored_representation); the arrays of fresh pairs are observed AFTER the comparisons, on separately built grids",
         "correspondence clause `reader is injective on connectivity`: distinct valid source tables of one dialect are stored as distinct "
         "tables (theorem procTable_inj about the reader model; C01's topology_roundtrip / ugrid_roundtrip / pad_inj give the same); the real "
         "reader is tied to the model per source pair (`reader_corresponds`)",
@@ -1248,6 +1348,9 @@ def run(ctx):
                 judge_refl(ctx, r[0], r[1], da, m.kind + "+nan")
                 if mi % 4 == 0:
                     judge_copy(ctx, ux, r[0], r[1], da, m.kind + "+nan")
+    # 3a'. construction forms of one format (face vertices in lon/lat or as Cartesian vectors), compared fresh
+    for kind, da, db in face_vertex_pairs(rng, thorough):
+        run_pair(ctx, ux, kind, da, db)
     # 3a. source descriptions in every fill convention, large index values
     for kind, sa, sb in source_pairs(rng, thorough):
         judge_source(ctx, ux, kind, sa, sb)
